@@ -562,11 +562,20 @@ Proof.
   - destruct (str_eqb_spec k n) as [->|]; [|discriminate]. intros H. inversion H; subst. left. reflexivity.
 Qed.
 
-Lemma mk_tset_exact suffix listing k p : suffix <> [] -> aget (mk_tset suffix listing) k = Some p ->
+Lemma mk_tset_exact top suffix listing k p : suffix <> [] -> aget (mk_tset top suffix listing) k = Some p ->
   In p listing /\ basename p = k ++ suffix.
 Proof.
   intros Hs H. apply aget_In in H. unfold mk_tset in H. apply in_map_iff in H. destruct H as [x [E Hx]].
   inversion E; subst. apply filter_In in Hx. destruct Hx as [Hin Hf]. split; [exact Hin|].
+  apply andb_prop in Hf. destruct Hf as [Hf _].
   destruct (str_eqb_spec (py_suffix (basename p)) suffix) as [Es|]; [|discriminate Hf].
   rewrite <- Es. apply py_suffix_stem. rewrite Es. exact Hs.
+Qed.
+
+(* with the top-level-only index every entry is a bare file name *)
+Lemma mk_tset_top suffix listing k p : aget (mk_tset true suffix listing) k = Some p -> basename p = p.
+Proof.
+  intros H. apply aget_In in H. unfold mk_tset in H. apply in_map_iff in H. destruct H as [x [E Hx]].
+  inversion E; subst. apply filter_In in Hx. destruct Hx as [_ Hf]. apply andb_prop in Hf. destruct Hf as [_ Hf].
+  cbn [negb orb] in Hf. destruct (str_eqb_spec (basename p) p) as [Eb|]; [exact Eb | discriminate Hf].
 Qed.
